@@ -18,7 +18,11 @@ META = {
              "Lambda^-1, and for UGLA that the draw is the documented local Gaussian N(Lambda(x_k)^-1 rhs, Lambda(x_k)^-1) on "
              "perfect-square lattices; named deviations are refuted by TLC.  The harness replays every emitted configuration "
              "into cuqi.experimental.mcmc.LinearRTO/UGLA and cuqi.sampler.LinearRTO/UGLA (incl. the 5-tuple form) with "
-             "scripted normals 0, e_i from two current states and compares offset / covariance / stacked operator (rtol 1e-8)."),
+             "scripted normals 0, e_i from two current states and compares offset / covariance / stacked operator (rtol 1e-8).  "
+             "Sequences (LinGaussSeq.tla, pairs of configurations): ONE sampler object whose target is replaced as HybridGibbs does "
+             "(target = other posterior; reinitialize(); set_state()), whose maxit / tol / beta / x0 are assigned between transitions "
+             "and which makes several transitions from wherever it is: every transition is the exact draw of the posterior installed NOW "
+             "(invariant SeqDrawIsTargetDraw, deviation ReinitKeepsOperator refuted); the legacy 5-tuple is not modified and can be used again."),
     "note": ("Bounded sizes (n, m <= 3), precisions on an integer/dyadic lattice; inner CGLS run with maxit=60, tol=1e-13 "
              "('run to convergence'); RegularizedLinearRTO not covered (not a Gaussian draw); GMRF priors with zero boundary "
              "condition only (the others are documented as inexact); point at which UGLA evaluates its weights (x_k or x_k - "
@@ -274,8 +278,18 @@ def _deviations(ctx, names):
 
 
 def run(ctx):
+    from cuqiverif import c06_seq
+    seq_jobs = c06_seq.start_tlc(ctx)          # LinGaussSeq (pairs of configurations, one sampler object), in background threads
+    try:
+        _run(ctx, seq_jobs)
+    except BaseException:
+        c06_seq.discard_tlc(seq_jobs)          # (no-op for runs already collected)
+        raise
+
+
+def _run(ctx, seq_jobs):
     from cuqiverif.core import MachineryError
-    from cuqiverif import tlc
+    from cuqiverif import tlc, c06_seq
     res = ctx.tlc("LinGauss", cfg="LinGauss.rto.%s.cfg" % ctx.tier, workers=16, timeout=1500)
     ctx.model_must_hold(res, "LinGauss.rto")
     rto_cases = res.cases
@@ -297,6 +311,9 @@ def run(ctx):
         groups.setdefault(_ugla_key(c), []).append(c)
     for key in sorted(groups):
         check_ugla(ctx, sorted(groups[key], key=lambda c: c["wv"]))
+    ctx.traces = len(rto_cases) + len(groups)
+    c06_seq.run(ctx, seq_jobs)                  # sequences on ONE sampler object (target switched, maxit / tol / beta / x0 reassigned)
+    ntr = ctx.traces
     two = [c for c in rto_cases if c["nl"] == 2]
     for c in (rto_cases[0], two[0] if two else rto_cases[-1]):
         ctx.sample({"case": {k: c[k] for k in ("kind", "n", "m", "A", "y", "noise", "prior", "Lam", "rhs", "mu_q", "LamInv_q")}})
@@ -305,7 +322,7 @@ def run(ctx):
     ctx.rule = ("one case per configuration emitted by TLC from LinGauss.tla (parts rto, ugla) with exact Lambda, rhs, mu_post, Lambda^-1; "
                 "non-trivial = distinct (configuration, sampler interface, current state) affine read-off or stacked-operator check")
     ctx.exhaustive = True
-    ctx.traces = len(rto_cases) + len(groups)
+    ctx.traces = ntr
     ctx.assumptions += ["inner CGLS with maxit=%d, tol=%g counts as 'run to convergence'" % (MAXIT, TOL),
                         "sqrtcov convention cov = S S^T (code and tests/test_distribution.py; the docstring says S^T S)",
                         "sizes and the integer/dyadic lattice bounded by LinGauss.*.cfg",
@@ -315,6 +332,9 @@ def run(ctx):
 def replay(ctx, case):
     if case.get("kind") == "model":
         return run(ctx)
+    if case.get("kind") in ("rtoseq", "uglaseq"):
+        from cuqiverif import c06_seq
+        return c06_seq.replay(ctx, case)
     if case.get("kind") == "rto":
         return check_rto(ctx, case)
     if case.get("kind") == "ugla":
